@@ -13,6 +13,7 @@ import (
 	"encoding/binary"
 	"errors"
 	"fmt"
+	"github.com/feichai0017/NoKV/manifest"
 	"os"
 	"path/filepath"
 	"sort"
@@ -278,6 +279,9 @@ type Image struct {
 	Where   string
 	Class   string
 	Torn    bool
+	// TornBatch (torn write to a MANIFEST file): which edit kinds of the written batch are
+	// completely inside the applied prefix and which are missing, e.g. "have=add miss=logptr".
+	TornBatch string
 }
 
 // Result summarises a run for the caller's oracle.
@@ -327,6 +331,61 @@ func classify(rec vfsx.Rec) string {
 	return "other:" + string(rec.Op)
 }
 
+// tornBatch describes a torn manifest write: data is a sequence of frames (4-byte little
+// endian length + payload; payload = 4-byte magic, 1-byte edit type, ...).
+func tornBatch(data []byte, written int) string {
+	names := map[byte]string{byte(manifest.EditAddFile): "add", byte(manifest.EditDeleteFile): "del", byte(manifest.EditLogPointer): "logptr"}
+	var have, miss []string
+	for off := 0; off+4 <= len(data); {
+		n := int(binary.LittleEndian.Uint32(data[off:]))
+		end := off + 4 + n
+		if n < 5 || end > len(data) {
+			return "unparsed"
+		}
+		name, ok := names[data[off+4+4]]
+		if !ok {
+			name = fmt.Sprintf("type%d", data[off+4+4])
+		}
+		if end <= written {
+			have = append(have, name)
+		} else {
+			miss = append(miss, name)
+		}
+		off = end
+	}
+	return "have=" + strings.Join(have, ",") + " miss=" + strings.Join(miss, ",")
+}
+
+// ListedTornBatch reports whether a torn manifest batch has one of the shapes of the listed
+// findings C09/C11-manifest-batch-torn on the unchanged tree: table deletions applied without
+// the additions of the same batch (move to an ingest buffer, compaction: data gone), or a
+// table addition applied without the WAL pointer that follows it (flush: table and WAL both
+// replayed).  Any other prefix of a batch is judged.
+func ListedTornBatch(tb string) bool {
+	i := strings.Index(tb, " miss=")
+	if !strings.HasPrefix(tb, "have=") || i < 0 {
+		return true // not understood: conservative
+	}
+	have, miss := strings.Split(tb[5:i], ","), strings.Split(tb[i+6:], ",")
+	has := func(l []string, x string) bool {
+		for _, e := range l {
+			if e == x {
+				return true
+			}
+		}
+		return false
+	}
+	switch {
+	case has(have, "del") && has(miss, "add"):
+		return true
+	case has(have, "add") && !has(have, "logptr") && has(miss, "logptr"):
+		return true
+	case has(have, "add") && has(miss, "del"):
+		return true // outputs installed, inputs not yet removed: the same batch seen from the other side
+	}
+	return false
+}
+
 // Drive runs the workload once and captures images into imgRoot.
 func Drive(c Case, dir, imgRoot string, r *pbt.Rec) (res *Result, err error) {
 	res = &Result{cfg: c.Cfg, c: c}
@@ -334,7 +393,9 @@ func Drive(c Case, dir, imgRoot string, r *pbt.Rec) (res *Result, err error) {
 	fs.KeepLog(false)
 	curOp := "open"
 	mutSeen := 0
+	var curData []byte
 	plan := func(rec vfsx.Rec, data []byte) vfsx.Action {
+		curData = data
 		if !rec.Mut {
 			return vfsx.Action{}
 		}
@@ -346,6 +407,17 @@ func Drive(c Case, dir, imgRoot string, r *pbt.Rec) (res *Result, err error) {
 		a := vfsx.Action{After: true}
 		if c.Torn && len(data) > 2 && (rec.Op == vfs.OpFileWrite || rec.Op == vfsx.OpFileWriteAt || rec.Op == vfs.OpWriteFile) {
 			a.Torn = []int{1, len(data) / 2, len(data) - 1}
+			if strings.HasPrefix(classify(rec), "manifest:") {
+				// every prefix of a batch of edits: cut at the frame boundaries too
+				for off := 0; off+4 <= len(data); {
+					n := int(binary.LittleEndian.Uint32(data[off:]))
+					off += 4 + n
+					if n < 5 || off >= len(data) {
+						break
+					}
+					a.Torn = append(a.Torn, off)
+				}
+			}
 		}
 		return a
 	}
@@ -362,6 +434,9 @@ func Drive(c Case, dir, imgRoot string, r *pbt.Rec) (res *Result, err error) {
 		res.Images = append(res.Images, Image{Dir: img, Started: int(pt.Started), Acked: int(pt.Acked),
 			Where: fmt.Sprintf("fs op #%d %s %s (%s, client op %q)", pt.Rec.Index, pt.Rec.Op, filepath.Base(pt.Rec.Path), pt.Phase, curOp),
 			Class: classify(pt.Rec) + "@" + strings.SplitN(curOp, " ", 2)[0], Torn: pt.Phase == vfsx.Torn})
+		if pt.Phase == vfsx.Torn && strings.HasPrefix(classify(pt.Rec), "manifest:") {
+			res.Images[len(res.Images)-1].TornBatch = tornBatch(curData, pt.Written)
+		}
 	}
 	fs.SetPlan(plan, capture)
 
